@@ -13,6 +13,9 @@ GROUPS = [
     dict(name='bounded_send', tu='bounded.c', harness='h_send', mode='H', loop_contracts=True, defs=LF, functions=['fiber_bounded_channel_send'], bounded=True, bound=RING),
     dict(name='bounded_receive', tu='bounded.c', harness='h_receive', mode='H', loop_contracts=True, defs=LF, functions=['fiber_bounded_channel_receive'], bounded=True, bound=RING),
     dict(name='bounded_try_receive', tu='bounded.c', harness='h_try_receive', mode='H', defs=LF, functions=['fiber_bounded_channel_try_receive'], bounded=True, bound=RING),
+    dict(name='signal_init', tu='signal.c', harness='h_init', mode='H', defs=LF, functions=['fiber_signal_init'], unwind=2, exact_unwind=True),
+    dict(name='bounded_create', tu='bounded.c', harness='h_create', mode='H', defs=LF, functions=['fiber_bounded_channel_create'], unwind=2, exact_unwind=True),
+    dict(name='multi_create', tu='multi.c', harness='h_create', mode='H', defs=LF, functions=['fiber_multi_channel_create'], unwind=2, exact_unwind=True),
     dict(name='unbounded_send', tu='unbounded.c', harness='h_usend', mode='H', defs=LF, functions=['fiber_unbounded_channel_send']),
     dict(name='unbounded_receive', tu='unbounded.c', harness='h_urecv', mode='H', loop_contracts=True, defs=LF, functions=['fiber_unbounded_channel_receive']),
     dict(name='unbounded_try_receive', tu='unbounded.c', harness='h_utry', mode='H', defs=LF, functions=['fiber_unbounded_channel_try_receive']),
